@@ -289,8 +289,9 @@ def _parse_file_inplace(
     # Ensure that baseuri is an absolute URI using an acceptable URI scheme.
     contentloc = result["headers"].get("content-location", "")
     href = result.get("href", "")
+    # (with an empty href the two-argument form would return contentloc unchecked)
     baseuri = (
-        make_safe_absolute_uri(href, contentloc)
+        (href and make_safe_absolute_uri(href, contentloc))
         or make_safe_absolute_uri(contentloc)
         or href
     )
